@@ -21,6 +21,10 @@ Proof. exact c12_raw_fits. Qed.
 Theorem C12_from_raw_valid : forall t, In t color_table -> forall v, valid t (from_raw t (raw_new t v)).
 Proof. exact c12_from_raw_valid. Qed.
 
+(* Default (the all-zero value) is a colour of every type, namely BLACK / Off *)
+Theorem C12_default_valid : forall t, In t color_table -> valid t 0 /\ color_black t = 0.
+Proof. exact c12_default_valid. Qed.
+
 (* raw -> colour -> raw only clears the unused bits, and doing it twice changes nothing more *)
 Theorem C12_raw_idem : forall t, In t color_table -> forall v,
   let d := to_raw t (from_raw t (raw_new t v)) in
@@ -63,14 +67,17 @@ Theorem C12_layout_bgr : forall t, In t color_table -> is_rgb_order t OBgr = tru
   bpos t + bb = used_bits t /\ gpos t + gb = bpos t /\ rpos t + rb = gpos t /\ rpos t = 0.
 Proof. exact c12_layout_bgr. Qed.
 
-(* into_storage, to_be_bytes, to_le_bytes describe the same number; the byte count is BITS_PER_PIXEL rounded up *)
+(* into_storage, to_be_bytes, to_le_bytes describe the same number; the byte count is BITS_PER_PIXEL rounded up; the
+   lists consist of bytes (byte x := 0 <= x < 256) - so the big-endian list IS the base-256 expansion of
+   into_storage, most significant byte first - and the little-endian list is its reverse *)
 Theorem C12_bytes_agree : forall t, In t color_table -> forall c, valid t c ->
   be_value (to_be_bytes t c) = into_storage t c /\
   le_value (to_le_bytes t c) = into_storage t c /\
   into_storage t c = to_raw t c /\
   Z.of_nat (length (to_be_bytes t c)) = raw_nbytes (c_raw t) /\
   Z.of_nat (length (to_le_bytes t c)) = raw_nbytes (c_raw t) /\
-  8 * (raw_nbytes (c_raw t) - 1) < bpp t <= 8 * raw_nbytes (c_raw t).
+  8 * (raw_nbytes (c_raw t) - 1) < bpp t <= 8 * raw_nbytes (c_raw t) /\
+  Forall byte (to_be_bytes t c) /\ to_le_bytes t c = rev (to_be_bytes t c).
 Proof. exact c12_bytes_agree. Qed.
 
 (* BinaryColor: Off <-> 0, On <-> 1, every non-zero raw value reads as On *)
